@@ -2,9 +2,9 @@ CONSTANTS
   Fam = "mac"
   NM = 1
   KindSet = {"obj", "f0", "f1", "f2", "fv", "f1v"}
-  MaxBody = 3
+  MaxBody = 4
   MaxInv = 6
-  BodyAlpha = {"x", "y", "V", "#x", "#y", "#V", "#", "##", "f", "a", "1", "("}
+  BodyAlpha = {"x", "y", "V", "#x", "##", "f", "a"}
   InvAlpha = {"f", "a", "(", ")", ","}
   VarWs = FALSE
   InvHead = TRUE
